@@ -16,7 +16,7 @@ Proof.
 Qed.
 
 Lemma str_step_close f l r acc : str_loop (S f) l (34 :: r) acc = Ok (l, r, rev acc).
-Proof. reflexivity. Qed.
+Proof. rewrite <- frev_eq. reflexivity. Qed.
 Lemma str_step_quote f l r acc : str_loop (S f) l (92 :: 34 :: r) acc = str_loop f l r (34 :: acc).
 Proof. reflexivity. Qed.
 Lemma str_step_backslash f l r acc : str_loop (S f) l (92 :: 92 :: r) acc = str_loop f l r (92 :: acc).
@@ -164,7 +164,7 @@ Proof.
   - destruct f as [|f]; [cbn in Hf; lia|]. cbn [app num_loop]. unfold num_stop in ST. cbn zeta in ST.
     destruct ((peek rest =? 69) || (peek rest =? 101) || (peek rest =? 45) || (peek rest =? 43)) eqn:E1; [lia|].
     destruct (peek rest =? 46) eqn:E2; [lia|].
-    destruct (is_digit (peek rest)) eqn:E3; [lia|]. rewrite app_nil_r. reflexivity.
+    destruct (is_digit (peek rest)) eqn:E3; [lia|]. rewrite app_nil_r, frev_eq. reflexivity.
   - destruct f as [|f]; [lia|]. cbn [length] in Hf. inversion D as [|? ? Hc Dt]; subst.
     cbn [app]. rewrite num_loop_first by exact Hc. rewrite IH by (auto; lia).
     cbn [rev]. rewrite <- app_assoc. reflexivity.
